@@ -24,7 +24,7 @@ REG.schema('BaseServer', module='base_server', fields=dict(
     compression_threshold=INT, cookie=ANY, cors_allowed_origins=ANY, cors_credentials=BOOL,
     async_handlers=BOOL, sockets=Dict(STR, Ref('BaseSocket')),
     handlers=Dict(STR, Opaque('Handler')), log_message_keys=Opaque('Set'),
-    start_service_task=BOOL, service_task_handle=ANY, service_task_event=ANY,
+    start_service_task=BOOL, service_task_handle=ANY, service_task_event=Opaque('Event', True),
     logger=Opaque('Logger'), async_mode=STR, transports=List(STR), sequence_number=INT,
     _async=RecF(websocket=Opaque('WSClass', True), queue=Opaque('QueueClass'), queue_empty=Opaque('ExcClass'),
                 thread=Opaque('ThreadClass'), event=Opaque('EventClass'),
@@ -50,6 +50,7 @@ REG.ghost('sr_headers', HEADERS)      # header list of the last start_response c
 from pyvc.lib_rt import EV_T, SP_T  # noqa: E402
 REG.ghost('events', List(EV_T))       # application-handler invocations, in order
 REG.ghost('spawned', List(SP_T))      # background tasks started, in order
+REG.ghost('slept', REAL)              # total time-out the monitor asked Event.wait for
 REG.ghost('now', REAL)                # ghost clock (time.time())
 REG.ghost('reads', List(INT))         # sizes passed to wsgi.input.read
 REG.ghost('received', List(Ref('Packet')))   # packets handed to Socket.receive, in order
